@@ -113,7 +113,11 @@ func (s *SDJWTBuilderV5) createDisclosuresAndDigestsInternal(
 			curPath = path + "." + key
 		}
 
-		kind := reflect.TypeOf(value).Kind()
+		// a null claim has no reflect type (reflect.TypeOf(nil) is nil): it is handled like any other simple value
+		var kind reflect.Kind
+		if value != nil {
+			kind = reflect.TypeOf(value).Kind()
+		}
 
 		valOption := s.extractValueOptions(curPath, opts)
 
